@@ -12,6 +12,7 @@ import (
 	"fmt"
 	"io"
 	"log/slog"
+	"net/url"
 	"os"
 	"path/filepath"
 	"runtime"
@@ -37,6 +38,7 @@ import (
 	"github.com/prometheus/alertmanager/notify"
 	"github.com/prometheus/alertmanager/provider/mem"
 	"github.com/prometheus/alertmanager/silence"
+	"github.com/prometheus/alertmanager/template"
 	"github.com/prometheus/alertmanager/timeinterval"
 )
 
@@ -85,10 +87,10 @@ type Rec struct {
 	Firing     []uint64
 	Resolved   []uint64
 	Ok         bool
-	Ts, Exp    int64  // merge: the delivered entry's timestamp and expiry
-	Suppressed []bool // flush: per alert, the instance's own mute verdict (inhibitor or silencer) at flush time
-	Silenced   []bool // flush: per alert, the silence part of that verdict (direct evaluation of the stored active silences)
-	Inhibited  []bool // flush: per alert, the inhibitor's own Mutes verdict
+	Ts, Exp    int64     // merge: the delivered entry's timestamp and expiry
+	Suppressed []bool    // flush: per alert, the instance's own mute verdict (inhibitor or silencer) at flush time
+	Silenced   []bool    // flush: per alert, the silence part of that verdict (direct evaluation of the stored active silences)
+	Inhibited  []bool    // flush: per alert, the inhibitor's own Mutes verdict
 	Raw        *AlertObs // publish: the alert as submitted to the provider (Alerts[0] = what the provider then holds)
 }
 
@@ -404,7 +406,13 @@ func New(t interface{ Fatalf(string, ...any) }, o Options) *Sim {
 	}
 	go s.Inhibitor.Run()
 	s.Inhibitor.WaitForLoading()
-	s.Disp = dispatch.NewDispatcher(s.Alerts, s.Route, &recStage{s: s, inner: pipeline}, s.Marker, timeout, o.MaintenanceInt, nil, logger, rec, dispatch.NewDispatcherMetrics(false, prometheus.NewRegistry(), ff), nil)
+	// a template engine, as app.Run hands one to the dispatcher: route labels (config `labels:`) are rendered with it
+	tmpl, err := template.FromGlobs(nil)
+	if err != nil {
+		t.Fatalf("template: %v", err)
+	}
+	tmpl.ExternalURL, _ = url.Parse("http://am.example:9093")
+	s.Disp = dispatch.NewDispatcher(s.Alerts, s.Route, &recStage{s: s, inner: pipeline}, s.Marker, timeout, o.MaintenanceInt, nil, logger, rec, dispatch.NewDispatcherMetrics(false, prometheus.NewRegistry(), ff), tmpl)
 	go s.Disp.Run(time.Now())
 	s.Disp.WaitForLoading()
 	return s
